@@ -129,6 +129,7 @@ def _connect_randomly(
     randint = random.randint
     connects: Dict[Entity, int] = {}
     for src in src_set:
+        assert max_i >= 0
         i = randint(0, max_i)
         dest = dest_set[i]
         connect(src, dest, *attrs)
@@ -137,7 +138,6 @@ def _connect_randomly(
         if connects[dest] >= max_connects:
             dest_set.remove(dest)
             max_i -= 1
-            assert max_i >= 0
 
     return connected
 
